@@ -99,6 +99,13 @@ func (v *varValidator) validateVarType(typ *ast.Type, val reflect.Value) (reflec
 		v.path = currentPath
 	}
 	defer resetPath()
+	if !val.IsValid() {
+		// a null: valid for a nullable type only
+		if typ.NonNull {
+			return val, gqlerror.ErrorPathf(v.path, "cannot be null")
+		}
+		return val, nil
+	}
 	if typ.Elem != nil {
 		if val.Kind() != reflect.Slice {
 			// GraphQL spec says that non-null values should be coerced to an array when possible.
